@@ -82,16 +82,32 @@ func TestVerifC13(t *testing.T) {
 		{"partner-domains", []string{"partner.test", "zeta.test"}, nil},
 		{"single-domain", []string{"solo.test"}, nil},
 	}
-	var y strings.Builder
-	y.WriteString("openid_connect_idp:\n    clients:\n")
-	for _, c := range clients {
-		fmt.Fprintf(&y, "        - client_id: %q\n          client_secret: \"s-%s\"\n          allowed_redirect_domains: %s\n          allowed_redirect_url_re: %s\n",
-			c.ID, c.ID, verifYAMLList(c.Domains), verifYAMLList(c.Patterns))
+	mkEnv := func(cl []c13Client) (*verifEnv, error) {
+		var y strings.Builder
+		y.WriteString("openid_connect_idp:\n    clients:\n")
+		for _, c := range cl {
+			fmt.Fprintf(&y, "        - client_id: %q\n          client_secret: \"s-%s\"\n          allowed_redirect_domains: %s\n          allowed_redirect_url_re: %s\n",
+				c.ID, c.ID, verifYAMLList(c.Domains), verifYAMLList(c.Patterns))
+		}
+		return verifNewEnv(verifStateOpts{Name: "c13", Users: map[string]string{"alice": "alice-pw-1"},
+			AllowedWebUI: []string{"password"}, ExtraTop: y.String()})
 	}
-	env, err := verifNewEnv(verifStateOpts{Name: "c13", Users: map[string]string{"alice": "alice-pw-1"},
-		AllowedWebUI: []string{"password"}, ExtraTop: y.String()})
+	env, err := mkEnv(clients)
 	if err != nil {
-		t.Fatal(err)
+		// a daemon that refuses to start with a pattern that does not compile is as strict as can be about that
+		// client: leave it out and go on with the others
+		var rest []c13Client
+		for _, c := range clients {
+			if c.ID != "domains-and-broken-pattern" {
+				rest = append(rest, c)
+			}
+		}
+		var err2 error
+		if env, err2 = mkEnv(rest); err2 != nil {
+			t.Fatal(err)
+		}
+		rep.Obs("the configuration with a redirect pattern that does not compile was refused at start-up (%v): that client is left out", err)
+		clients = rest
 	}
 	ck, _ := verifLogin(env, "alice", "alice-pw-1")
 	if ck == "" {
